@@ -111,7 +111,7 @@ Theorem step_sent c s o s' ev h m cz : step c s o = (s', ev) -> In (Sent h m cz)
   plan_msg m cz \/ exists k t, o = Run k /\ nth_error (queue s) k = Some t /\ task_sends s t h m cz
                             /\ pool_of s (task_host t) = PHealthy.
 Proof.
-  intros H Hin. destruct o as [|i r|k| |h0 p|k]; cbn [step] in H.
+  intros H Hin. destruct o as [|i r|k| |h0 p|k|pp]; cbn [step] in H.
   - left. unfold send_request in H. eapply walk_sent_planmsg; eauto.
   - destruct (nth_error (attempts s) i) as [a|]; [|inversion H; subst; destruct Hin].
     destruct (a_done a); [inversion H; subst; destruct Hin|].
@@ -123,6 +123,8 @@ Proof.
   - left. eapply spec_fire_sent; eauto.
   - inversion H; subst. destruct Hin.
   - inversion H; subst. destruct Hin.
+  - destruct (paging s); [|inversion H; subst; destruct Hin].
+    left. unfold send_request in H. eapply walk_sent_planmsg; eauto.
 Qed.
 
 (* ------------------------------------------------------------------ where executor tasks come from *)
@@ -203,7 +205,7 @@ Theorem step_queue c s o s' ev t : step c s o = (s', ev) -> In t (queue s') ->
   In t (queue s) \/ exists i r a, o = Resp i r /\ nth_error (attempts s) i = Some a /\ a_done a = false /\
      (if a_prep a then t = TAfterPrepare (a_host a) r else enqueued_by (a_host a) r ev t).
 Proof.
-  intros H Hin. destruct o as [|i r|k| |h0 p|k]; cbn [step] in H.
+  intros H Hin. destruct o as [|i r|k| |h0 p|k|pp]; cbn [step] in H.
   - apply send_request_queue in H. left. congruence.
   - destruct (nth_error (attempts s) i) as [a|] eqn:N; [|inversion H; subst; qnorm; left; exact Hin].
     destruct (a_done a) eqn:D; [inversion H; subst; qnorm; left; exact Hin|].
@@ -223,4 +225,7 @@ Proof.
     destruct (spec_armed s1); [|destruct (0 <? spec_left s1)]; cbn in Hin; rewrite W in Hin; exact Hin.
   - inversion H; subst. left. exact Hin.
   - inversion H; subst. left. exact Hin.
+  - left. destruct (paging s); [|inversion H; subst; exact Hin].
+    apply send_request_queue in H. rewrite H in Hin. destruct (page_start_fields c s pp) as (_ & _ & _ & _ & _ & _ & _ & _ & _ & Q & _).
+    rewrite Q in Hin. exact Hin.
 Qed.
